@@ -1664,3 +1664,105 @@ Theorem C14_mt_example_exact : forall cap tcap,
   (cap < 7 \/ tcap < 5 -> gres_code (mbin_nc cap tcap exh MAdd ex_f ex_x0) = 1).
 Proof. exact ex_exact_consequence. Qed.
 Print Assumptions C14_mt_example_exact.
+
+(* ---------------------------------------------------------------------------------------------
+   Package ALLOC: the slot allocator of the index-based manager, interleaving model
+   coq/Mgr/Alloc.v (Store::add_node / get_slot_from_shared / free_slot / prepare_local_state / guard
+   drop), for every schedule of any number of threads.  "reachable": see C05_alloc_reachable_def.
+   (Qualified names: the model's identifiers are not imported into this file.) *)
+From Coq Require Import ZArith.
+From OxiVerif Require Mgr.Alloc Mgr.AllocProofs Mgr.AllocThms Mgr.AllocExamples.
+Import ListNotations.
+
+(* add_node is never stuck (no panic: a list head is always a free slot): result or OutOfMemory *)
+Theorem C14_alloc_never_stuck : forall c s t, AllocThms.reachable c s -> (t < length (Alloc.th s))%nat ->
+  exists s' o, Alloc.step c Alloc.good s (Alloc.AAlloc t) = Some (s', o).
+Proof. exact AllocThms.r_alloc_enabled. Qed.
+Print Assumptions C14_alloc_never_stuck.
+
+(* (c) OUT OF MEMORY: add_node of thread t fails if and only if no free slot is reachable by t: no
+   shared list, nothing left to allocate, nothing in t's own list or range *)
+Theorem C14_alloc_oom_iff : forall c s t l, AllocThms.reachable c s -> nth_error (Alloc.th s) t = Some l ->
+  ((exists s' p, Alloc.step c Alloc.good s (Alloc.AAlloc t) = Some (s', Alloc.OAlloc None p)) <->
+   (Alloc.shared_slots c s = [] /\ Alloc.unalloc_slots c s = [] /\ Alloc.thread_slots c s t = [])).
+Proof. exact AllocThms.r_oom_iff. Qed.
+Print Assumptions C14_alloc_oom_iff.
+
+(* ... so after a failed add_node every free slot is parked in ANOTHER thread's local list or range
+   (the code's documented imprecision); the failed call changes no slot *)
+Theorem C14_alloc_oom_only_parked : forall c s t s' p, AllocThms.reachable c s ->
+  Alloc.step c Alloc.good s (Alloc.AAlloc t) = Some (s', Alloc.OAlloc None p) ->
+  p = Alloc.POom /\ Alloc.sl s' = Alloc.sl s /\
+  forall id, In id (Alloc.free_slots c s) -> exists u, u <> t /\ In id (Alloc.thread_slots c s u).
+Proof. exact AllocThms.r_oom_only_parked. Qed.
+Print Assumptions C14_alloc_oom_only_parked.
+
+(* when no other thread holds a slot (e.g. one thread): OutOfMemory iff all capacity slots hold a node *)
+Theorem C14_alloc_oom_single : forall c s t l, AllocThms.reachable c s -> nth_error (Alloc.th s) t = Some l ->
+  AllocProofs.others_idle_p c s t ->
+  ((exists s' p, Alloc.step c Alloc.good s (Alloc.AAlloc t) = Some (s', Alloc.OAlloc None p)) <->
+   Alloc.nlive c s = N.to_nat (Alloc.cap c)).
+Proof. exact AllocThms.r_oom_single. Qed.
+Print Assumptions C14_alloc_oom_single.
+
+Theorem C14_alloc_others_idle_checker : forall c s t,
+  Alloc.others_idle c s t = true -> AllocProofs.others_idle_p c s t.
+Proof. exact AllocThms.others_idle_spec. Qed.
+Print Assumptions C14_alloc_others_idle_checker.
+
+(* once space has been freed (a slot without node exists, no other thread holds slots) add_node succeeds *)
+Theorem C14_alloc_retry_succeeds : forall c s t l, AllocThms.reachable c s -> nth_error (Alloc.th s) t = Some l ->
+  AllocProofs.others_idle_p c s t -> (Alloc.nlive c s < N.to_nat (Alloc.cap c))%nat ->
+  exists s' id p, Alloc.step c Alloc.good s (Alloc.AAlloc t) = Some (s', Alloc.OAlloc (Some id) p).
+Proof. exact AllocThms.r_alloc_succeeds. Qed.
+Print Assumptions C14_alloc_retry_succeeds.
+
+(* small managers (capacity <= chunk size: no chunk is ever pre-allocated): add_node changes no other
+   thread's local state, and a thread that holds no slot holds none after its own add_node: slots are
+   parked with a thread only by its own free_slot calls *)
+Theorem C14_alloc_no_hoard_scarce : forall c s t l s' o,
+  (Alloc.cap c <= Alloc.chunk c)%N -> nth_error (Alloc.th s) t = Some l ->
+  Alloc.step c Alloc.good s (Alloc.AAlloc t) = Some (s', o) ->
+  (forall u, u <> t -> nth_error (Alloc.th s') u = nth_error (Alloc.th s) u) /\
+  exists l', nth_error (Alloc.th s') t = Some l' /\ Alloc.l_cur l' = Alloc.l_cur l /\
+             (AllocProofs.holds_nothing c l -> AllocProofs.holds_nothing c l').
+Proof. exact AllocProofs.alloc_no_hoard_scarce. Qed.
+Print Assumptions C14_alloc_no_hoard_scarce.
+
+(* the code before /repo 45ba7ac (a worker takes the whole list): worker 1 holds slots 3 and 2 after ONE
+   add_node although it never freed a slot, thread 0 gets OutOfMemory with 1 of 3 slots live; the code
+   as it is hands slot 3 to thread 0 *)
+Theorem C14_alloc_take_all_refuted :
+  AllocExamples.summary AllocExamples.sm_cfg
+    (Alloc.run AllocExamples.sm_cfg Alloc.var_take_all (Alloc.init AllocExamples.sm_cfg 2) AllocExamples.sched_take_all) =
+    Some (Alloc.OAlloc None Alloc.POom, [], 1%Z, 0%Z, 1%nat, [0%N; 3%N], [4%N], ([], [3%N; 2%N], [], []), true) /\
+  AllocExamples.summary AllocExamples.sm_cfg
+    (Alloc.run AllocExamples.sm_cfg Alloc.good (Alloc.init AllocExamples.sm_cfg 2) AllocExamples.sched_take_all) =
+    Some (Alloc.OAlloc (Some 3%N) Alloc.PSharedList, [2%N], 2%Z, 0%Z, 2%nat, [0%N; 0%N], [3%N; 4%N],
+          ([2%N], [], [], []), true).
+Proof. exact AllocExamples.take_all_refuted. Qed.
+Print Assumptions C14_alloc_take_all_refuted.
+
+(* seeded C14f (non-local branch: capacity check before the list lookup): one thread, the store was full
+   once, slot 3 is free in the shared list, add_node still fails; the code as it is returns slot 3 *)
+Theorem C14_alloc_cap_first_refuted :
+  AllocExamples.summary AllocExamples.sm_cfg
+    (Alloc.run AllocExamples.sm_cfg Alloc.var_cap_first (Alloc.init AllocExamples.sm_cfg 1) AllocExamples.sched_cap_first) =
+    Some (Alloc.OAlloc None Alloc.POom, [3%N], 3%Z, 0%Z, 2%nat, [0%N], [2%N; 4%N], ([3%N], [], [], []), false) /\
+  AllocExamples.summary AllocExamples.sm_cfg
+    (Alloc.run AllocExamples.sm_cfg Alloc.good (Alloc.init AllocExamples.sm_cfg 1) AllocExamples.sched_cap_first) =
+    Some (Alloc.OAlloc (Some 3%N) Alloc.PNonLocalList, [], 3%Z, 0%Z, 3%nat, [0%N], [2%N; 3%N; 4%N], ([], [], [], []), true).
+Proof. exact AllocExamples.cap_first_refuted. Qed.
+Print Assumptions C14_alloc_cap_first_refuted.
+
+(* the code before the fix "a failed node allocation is not counted": two failed add_node calls leave
+   the shared count at 5 with 3 live slots *)
+Theorem C14_alloc_oom_drift_refuted :
+  AllocExamples.summary AllocExamples.sm_cfg
+    (Alloc.run AllocExamples.sm_cfg Alloc.var_oom_drift (Alloc.init AllocExamples.sm_cfg 1) AllocExamples.sched_oom_drift) =
+    Some (Alloc.ODrop false 0%N, [], 5%Z, 0%Z, 3%nat, [0%N], [2%N; 3%N; 4%N], ([], [], [], []), false) /\
+  AllocExamples.summary AllocExamples.sm_cfg
+    (Alloc.run AllocExamples.sm_cfg Alloc.good (Alloc.init AllocExamples.sm_cfg 1) AllocExamples.sched_oom_drift) =
+    Some (Alloc.ODrop false 0%N, [], 3%Z, 0%Z, 3%nat, [0%N], [2%N; 3%N; 4%N], ([], [], [], []), true).
+Proof. exact AllocExamples.oom_drift_refuted. Qed.
+Print Assumptions C14_alloc_oom_drift_refuted.
